@@ -100,7 +100,7 @@ def applyOps (w : World) (b : BState) : List Op → Res × List Op
     | some _ => (r, [op])
     | none =>
       let (r2, done) := applyOps w r.st ops
-      ({ st := r2.st, docs := r.docs ++ r2.docs, calls := r.calls ++ r2.calls, err := r2.err }, op :: done)
+      ({ st := r2.st, calls := r.calls ++ r2.calls, err := r2.err }, op :: done)
 
 /-- apply bundler operations in order, swallowing exceptions (the engine logs them) -/
 def applyOpsSwallow (w : World) (b : BState) : List Op → Res × List Op
@@ -108,14 +108,14 @@ def applyOpsSwallow (w : World) (b : BState) : List Op → Res × List Op
   | op :: ops =>
     let r := step w b op
     let (r2, done) := applyOpsSwallow w r.st ops
-    ({ st := r2.st, docs := r.docs ++ r2.docs, calls := r.calls ++ r2.calls, err := none }, op :: done)
+    ({ st := r2.st, calls := r.calls ++ r2.calls, err := none }, op :: done)
 
 /-- run `ops` on the open bundler (the environment is shared with the bundler state) -/
 def onRun (w : World) (g : GState) (b : BState) (ops : List Op) (pre : List Call := []) : GRes :=
   let b := { b with envCfg := g.envCfg, dets := g.dets }
   let (r, done) := applyOps w b ops
   { g := { g with run := some r.st, envCfg := r.st.envCfg, dets := r.st.dets, nextUid := r.st.nextUid }
-    docs := r.docs, calls := pre ++ r.calls, err := r.err, ops := done }
+    docs := docsSince b r.st, calls := pre ++ r.calls, err := r.err, ops := done }
 
 def gfail (g : GState) (e : Err) : GRes := { g := g, err := some e }
 
@@ -142,8 +142,8 @@ def gstep (w : World) (g : GState) (m : GMsg) : GRes :=
     match g.run with
     | some _ => gfail g .illegalMessageSequence
     | none =>
-      let r := openRun g.cfg g.nextUid g.envCfg
-      { g := { g with run := some { r.st with dets := g.dets }, nextUid := r.st.nextUid }, docs := r.docs, calls := r.calls }
+      let b := openRun g.cfg g.nextUid g.envCfg
+      { g := { g with run := some { b with dets := g.dets }, nextUid := b.nextUid }, docs := b.out }
   | .closeRun e rs =>
     needRun closeRunNeedsRun fun b =>
       let r := onRun w g b [.closeRun e rs]
@@ -240,7 +240,7 @@ def gstep (w : World) (g : GState) (m : GMsg) : GRes :=
       let (r1, d1) := applyOpsSwallow w b [.clearMonitors, .backstopCollect]
       let (r2, d2) := if r1.st.runOpen then applyOpsSwallow w r1.st [.closeRun e rs] else (Res.ok r1.st, [])
       { g := { g with run := none, envCfg := r2.st.envCfg, dets := r2.st.dets, nextUid := r2.st.nextUid }
-        docs := r1.docs ++ r2.docs, calls := r1.calls ++ r2.calls, ops := d1 ++ d2 }
+        docs := docsSince b r2.st, calls := r1.calls ++ r2.calls, ops := d1 ++ d2 }
 
 def grun (w : World) (g : GState) : List GMsg → GState × List GEntry
   | [] => (g, [])
